@@ -1206,10 +1206,7 @@ func execKvInner(in kvInput, scratch string, prog *kvProgress) (Case, error) {
 				if ne > 0 && ne <= 2592000 {
 					usesRelExp = true
 				}
-				oh := st.Handle
-				if st.Coll != "s1.c2" {
-					oh = (st.Handle + 1) % nh
-				}
+				oh := (st.Handle + 1) % nh
 				k.win = &windowRun{step: Step{Kind: "kv", Coll: st.Coll, Key: st.Key, Handle: oh, Op: st.Nested, Clock: st.Clock}}
 			}
 			var kt Term
@@ -1265,7 +1262,7 @@ func execKvInner(in kvInput, scratch string, prog *kvProgress) (Case, error) {
 			}
 		case "create":
 			opT = C("SCreateColl", S(st.Coll))
-			e := k.handles[0].CreateDataStore(ctxBg, dsName(st.Coll))
+			e := k.handles[st.Handle].CreateDataStore(ctxBg, dsName(st.Coll))
 			if e != nil {
 				respT = rErr(e)
 			} else {
@@ -1276,7 +1273,7 @@ func execKvInner(in kvInput, scratch string, prog *kvProgress) (Case, error) {
 			}
 		case "drop":
 			opT = C("SDropColl", S(st.Coll))
-			e := k.handles[0].DropDataStore(dsName(st.Coll))
+			e := k.handles[st.Handle].DropDataStore(dsName(st.Coll))
 			if e != nil {
 				respT = rErr(e)
 			} else {
